@@ -70,6 +70,62 @@ fn make_case(seq: &[usize]) -> Case {
     }
 }
 
+/// size dimension: long interfaces (9..=40 methods) with shuffled codes, repeats far apart,
+/// late mixing and late name repeats
+fn long_case(n: usize, shape: usize) -> Case {
+    let mut item = Item::new(ItemKind::Interface, "I");
+    for i in 0..n {
+        let mut m = Method::new(Ty::void(), &format!("m{i}"), vec![]);
+        // codes in a non-monotonic order: descending, or a stride permutation
+        let code = match shape % 3 {
+            0 => (n - i) * 3,
+            1 => (i * 7) % (n + 3) + 1,
+            _ => i + 1,
+        };
+        m.code = Some(code.to_string());
+        item.members.push(Member::Method(m));
+    }
+    let setm = |item: &mut Item, i: usize, f: &dyn Fn(&mut Method)| {
+        if let Some(Member::Method(m)) = item.members.get_mut(i) {
+            f(m)
+        }
+    };
+    match shape / 3 {
+        // the last method repeats the first code
+        0 => {
+            let c = if let Member::Method(m) = &item.members[0] { m.code.clone() } else { None };
+            setm(&mut item, n - 1, &|m| m.code = c.clone());
+        }
+        // the last method repeats the code of the middle one, the one before repeats the first name
+        1 => {
+            let c = if let Member::Method(m) = &item.members[n / 2] { m.code.clone() } else { None };
+            setm(&mut item, n - 1, &|m| m.code = c.clone());
+            setm(&mut item, n - 2, &|m| m.name = "m0".into());
+        }
+        // the last method has no code (late mixing)
+        2 => setm(&mut item, n - 1, &|m| m.code = None),
+        // no code anywhere except on the last method
+        _ => {
+            for i in 0..n - 1 {
+                setm(&mut item, i, &|m| m.code = None);
+            }
+        }
+    }
+    let files = vec![ProjFile::from_doc_styled("obs", Document::new("p", item), shape % 2 == 1)];
+    let exp = expect_observed(&files, 0);
+    let doc = files[0].doc.as_ref().unwrap();
+    let r = files[0].rendered.as_ref().unwrap();
+    let regions = vec![Loc::within(r.start(doc.item.lbrace_tok), r.end(doc.item.span.last))];
+    let recs: Vec<Rec> = exp.recs.clone();
+    Case {
+        prop: PROP.into(),
+        kind: "long".into(),
+        label: format!("{n} methods, shape {shape}"),
+        files: files.iter().map(|f| (f.id.clone(), f.text.clone())).collect(),
+        expect: expect_json(&exp, &recs, &regions, "obs"),
+    }
+}
+
 pub fn check_case(case: &Case) -> CheckResult {
     let mut r = check_region_case(case, false, false);
     let mut sig: Vec<String> = Vec::new();
@@ -112,6 +168,19 @@ pub fn run(tier: Tier, seed: u64) -> i32 {
         check_case,
     );
     stats.space(json!({"space": "member sequences", "alphabet": "3 names x {no code, 8, 010, 10} + 1 constant + 1 constant named like a method", "max_length": l, "sequences": n}));
+    let sizes = [9usize, 10, 11, 12, 16, 17, 24, 33, 40];
+    super::drive(
+        &stats,
+        sizes.len() * 12,
+        1,
+        |i| {
+            let c = long_case(sizes[i / 12], i % 12);
+            stats.nontrivial(fnv(&c.files[0].1));
+            Some(c)
+        },
+        check_case,
+    );
+    stats.space(json!({"space": "long interfaces", "sizes": sizes, "shapes": 12}));
     let classes = ["duplicate-method-name", "duplicate-transact-code", "mixed-transact-codes"];
     let all = classes.iter().all(|c| stats.outcome_count(&format!("class:{c}")) > 0) && stats.outcome_count("clean") > 0;
     finish(
